@@ -44,7 +44,7 @@ CHECKS = {
     "C02": dict(
         engine="corr-trace",
         technique="Coq proof (picks never fail on a not-ready node; for every schedule no execution in a dry run: invariant over resume/run_schedule; no path error for any number of workers: per-worker path invariant + frame for the other workers; for the plain single-worker configuration and every schedule an exit implies that every reachable ordinary own test has results or visible states: invariants AInv/EInv over resume/run_schedule) + trace refinement against hand-driven real coroutines; termination / no traversal error / definite results are monitors on the implementation's runs",
-        text=('PARTIAL. Proved: pick_child/pick_parent succeed whenever the loop calls them (node not cleanup-/setup-ready); for every graph, pool population and schedule no node with dry_run is ever executed; for every graph meeting pwf_b (symmetric edges, root without parents and sole parent of the nodes below it; checked on every exported graph), every pool population, every schedule and ANY number of workers no section reports a pick from an exhausted node, a discontinuous path, an empty path or an exit away from the starting point (C02_no_path_errors, Proofs/TraversePath.v: the path of each worker stays a chain of edges ending in the root and a worker that is below the root has not dropped the child it descended through); for every graph meeting ewf_b (retry flags consistent; the form of an ordinary test of a worker shared by no other node that worker decides on; checked on every exported graph), every pool population, schedule and ANY number of workers: once a worker has left its loop, every ordinary test of that worker reachable from the root over such tests has all its own children dropped and, if it saves no state, some copy of its class has a result entry (C02_exit_means_done_any_workers, Proofs/TraverseExitN.v); for every single-worker graph meeting simple_b (checked on every generated single-worker graph), every pool population, schedule and outcome assignment: when the worker leaves its loop every ordinary own test the root reaches through child edges has results or all its set states visible, a stateless (leaf) one has results, and all own children of each have been dropped (C02_exit_means_every_reachable_test_was_dealt_with, C02_exit_means_subtree_visited, Proofs/TraverseExit.v; several workers and "definite status" stay with the monitors). Checked on every generated run of the real code: all workers exit with path [root], no traversal error, every leaf has a non-pending result (runs without never-reported outcomes), dry runs touch nothing. Termination is not proved (lazy expansion and the bump are outside the model). A non-termination found this way (failing creation pre-step retried without bound) was repaired (fix: f7f35cf).'),
+        text=('PARTIAL. Proved: pick_child/pick_parent succeed whenever the loop calls them (node not cleanup-/setup-ready); for every graph, pool population and schedule no node with dry_run is ever executed; for every graph meeting pwf_b (symmetric edges, root without parents and sole parent of the nodes below it; checked on every exported graph), every pool population, every schedule and ANY number of workers no section reports a pick from an exhausted node, a discontinuous path, an empty path or an exit away from the starting point (C02_no_path_errors, Proofs/TraversePath.v: the path of each worker stays a chain of edges ending in the root and a worker that is below the root has not dropped the child it descended through); for every graph meeting ewf_b (retry flags consistent; the form of an ordinary test of a worker shared by no other node that worker decides on; checked on every exported graph), every pool population, schedule and ANY number of workers: once a worker has left its loop, every ordinary test of that worker reachable from the root over such tests has all its own children dropped and, if it saves no state, some copy of its class has a result entry (C02_exit_means_done_any_workers, Proofs/TraverseExitN.v); for schedules in which every awaited test reports a status, the pending placeholders of a node are exactly as many as the workers awaiting a test on it, so once nobody runs nothing is pending (C02_no_pending_results_when_nobody_runs, Proofs/TraverseDefinite.v) and the reachable leaf tests of an exited worker have a result with a definite status on some copy (C02_exit_means_definite_result); for every single-worker graph meeting simple_b (checked on every generated single-worker graph), every pool population, schedule and outcome assignment: when the worker leaves its loop every ordinary own test the root reaches through child edges has results or all its set states visible, a stateless (leaf) one has results, and all own children of each have been dropped (C02_exit_means_every_reachable_test_was_dealt_with, C02_exit_means_subtree_visited, Proofs/TraverseExit.v; several workers and "definite status" stay with the monitors). Checked on every generated run of the real code: all workers exit with path [root], no traversal error, every leaf has a non-pending result (runs without never-reported outcomes), dry runs touch nothing. Termination is not proved (lazy expansion and the bump are outside the model). A non-termination found this way (failing creation pre-step retried without bound) was repaired (fix: f7f35cf).'),
         note=TRAV_NOTE,
         design="§5 C02"),
     "C03": dict(
